@@ -1,4 +1,4 @@
-(* Model of the default sync engine: SyncManager (transports/p2p/p2psync/manager.go) together with the
+(* Model of the default sync engine at /repo HEAD (after fix commits e6f7150 and 1572875): SyncManager (transports/p2p/p2psync/manager.go) together with the
    duplicate-request filter of Peer.PushGetHeadersMsg and the Connected() guard of Peer.QueueMessage
    (transports/p2p/peer/peer.go).  Definitions only.  The model mirrors the code AS IT IS.
 
@@ -55,7 +55,7 @@ Definition opt_eqb (a : option N) (p : N) : bool := match a with Some q => N.eqb
 (* SyncManager.New *)
 Definition d_init (cfg : dcfg) (s : store) : dstate :=
   let nx := if c_disable cfg then None else find_next_d (c_cps cfg) (tip_height s) in
-  {| d_hfm := if c_disable cfg then false else match nx with None => true | Some _ => false end;
+  {| d_hfm := if c_disable cfg then true else match nx with None => true | Some _ => false end;     (* e6f7150: true when disabled *)
      d_next := nx; d_sync := None; d_objs := []; d_states := []; d_store := s |}.
 
 (* peer.Disconnect() *)
@@ -238,7 +238,7 @@ Definition on_inv (cfg : dcfg) (st : dstate) (p : N) (l : list (bool * N)) : dst
            | Some o => with_objs st (aset p {| po_conn := po_conn o; po_last := height r; po_start := po_start o; po_pb := po_pb o; po_ps := po_ps o |} (d_objs st))
            | None => st
            end, [])
-        | None => send_gh st p (locator (d_store st)) 0%N
+        | None => send_gh st p (locator (d_store st)) h      (* 1572875: stop = the announced block (was the zero hash) *)
         end
       end
     end
